@@ -195,6 +195,12 @@ def run(ctx):
     hit_fns = {k[0] for k in I.block_hits}
     # cross-stage normalisation for the label look-ups
     norm_ok, norm_detail = label_normalisation(p)
+    from .. import labelscan
+    nscan, bad_scan = labelscan.scan(p)
+    if bad_scan:
+        norm_ok = False
+        norm_detail = "the parser's undefined-label scan misses references: %s" % "; ".join(bad_scan[:3])
+    chk.note("validate_lines interpreted on %d (shape, definition mode) cases: every label of every operand position is checked" % nscan)
     for s in sites:
         if s["in_log"] and s["kind"] == "assert":
             pass
